@@ -17,23 +17,26 @@ CFG = dict(
          "violation; the many-block output is also compared with the Lean model. Non-trivial = at least one record was emitted; distinct by input line.",
     nontrivial=["records"],
     jobs=seeds(1, 3),
-    lean_files=["Trig", "Pipe", "PipeJudge", "C08", "C09", "Edge", "Emt", "EmtShift", "EdgeGlobal"],
+    lean_files=["Trig", "Pipe", "PipeJudge", "C08", "C09", "Edge", "Emt", "EmtShift", "EmtScan", "EmtLoop", "EmtSim", "EmtRun", "EmtStep", "EdgeGlobal"],
     trusted_base=_PIPE_TB,
-    assumptions=["block independence and absence of out-of-range accesses ACROSS blocks are stated in Lean (C08_block_independent_full, C08_no_oob_full) and decided on the real "
-                 "code by the one-block/many-block oracle on the explored cases; the proved theorems cover the record-extent rule, per-block bounds and locality of the search"],
+    assumptions=["the kink-fit oracle moves a trigger by at least -1 sample (the real fit: -1, 0 or +1)",
+                 "absence of out-of-range accesses ACROSS blocks is stated in Lean (C08_no_oob_full) and decided on the real code by the correspondence run (a crash is a violation); "
+                 "per block it is proved (C08_search_in_bounds)"],
     timeout=dict(quick=900, thorough=3600),
 )
 MANIFEST = dict(
-    text="Theorems over the transcribed edge-multi search and record-extent rule, for every kink-fit oracle: fixed-length modes always give full-length records; a record is "
-         "only made for an edge distinct from its neighbours; variable-length records never overlap the previous record nor extend past the next edge; the search of a block "
-         "never reads outside the buffer; the search on the retained buffer finds exactly what the search on the whole delivered stream finds (locality). Record contents are "
-         "covered by C01_block_exact. Block independence and cross-block bounds are stated at full strength and decided at run time on the REAL code: every case is run "
-         "cut into blocks and as a single block and the record sequences must be identical; a crash is a violation.",
+    text="Block independence is PROVED: for a freshly configured edge-multi channel, every stream, every cut into blocks of any lengths, every threshold / monotone count / "
+         "record mode and every kink-fit oracle (shift >= -1), the sequence of record specifications (frame, pre-trigger length, length) of the block-by-block run equals that of "
+         "the single-block run (C08_block_independent; simulation between the incremental state machine with its end-of-block flush and the single scan: locality of the search on "
+         "the retained buffer, prefix stability, split of a scan at an intermediate limit, the flush emits the same record the next edge would). Also proved: fixed-length modes give "
+         "full-length records, at most one record per edge, variable-length records never overlap nor pass the next edge, the search of a block never reads outside the buffer. "
+         "Record contents are C01_block_exact. The REAL pipeline is run cut into blocks and as a single block on every case and the record sequences must be identical; a crash is "
+         "a violation; the output is also compared with the Lean model.",
     note="Trusted: Lean 4.33 kernel (axioms propext, Classical.choice, Quot.sound only; audited every run); the hand-written model is tied to the Go code only by "
-         "differential testing with seeded generators (not a proof). PARTIAL: the cross-block statements (C08_block_independent_full, C08_no_oob_full) are not yet proved; "
-         "they rest on the one-block/many-block oracle over the explored cases. The least-squares kink fit is an oracle table obtained from the real zeroThreshold. "
-         "Two crash defects found through this pipeline were repaired in /repo (5067219, fbc46c8).",
-    technique="Lean 4 theorems over an executable model; one-block vs many-block oracle and model tied to the Go code by a differential correspondence run",
+         "differential testing with seeded generators (not a proof). Partial on one clause: bounds ACROSS blocks (C08_no_oob_full: retained history always covers the deferred "
+         "edge's record) are stated but decided only at run time (crash = violation). The least-squares kink fit is an oracle table obtained from the real zeroThreshold; the "
+         "theorem quantifies over all oracles with shift >= -1. Two crash defects found through this pipeline were repaired in /repo (5067219, fbc46c8).",
+    technique="Lean 4 simulation proof over an executable model; one-block vs many-block oracle and model tied to the Go code by a differential correspondence run",
 )
 THEOREMS = [
     ("DastardV.Props.C08", "DastardV.C08.C08_fixed_modes_full_length"),
@@ -41,4 +44,8 @@ THEOREMS = [
     ("DastardV.Props.C08", "DastardV.C08.C08_variable_no_overlap"),
     ("DastardV.Props.C08", "DastardV.C08.C08_search_in_bounds"),
     ("DastardV.Props.C08", "DastardV.C08.C08_search_local"),
+    ("DastardV.Props.C08", "DastardV.C08.C08_block_independent"),
+    ("DastardV.Lemmas.EmtSim", "DastardV.Trig.sim_loop"),
+    ("DastardV.Lemmas.EmtStep", "DastardV.Trig.stepEmt_inv"),
+    ("DastardV.Lemmas.EmtLoop", "DastardV.Trig.emtLoop_split"),
 ]
